@@ -102,13 +102,17 @@ theorem compiled_program_is_reference (cfg : Cfg) (hsrc : SrcDefs cfg.defs) (f :
     the real compiler's output), called under the Python semantics of `Yld.Model.Py`, is the
     engine model's compiled mode for that predicate: same unifications with the arguments, same
     calls to `query` with the same consumers in the same worlds, same outcome — for every clause
-    list, argument list of the right length, consumer and world. `FrameLocal` says that a callee
-    cannot see its caller's local variables (Python's scoping). -/
+    list, argument list of the right length, consumer and world. -/
 theorem printed_function_is_compiled_predicate (cfg : Cfg) (f : Nat) (p : Pred) (mode : Mode) (args : List Term)
-    (harity : p.arity = args.length) (hsrc : ∀ c ∈ p.clauses, ClauseSrcOK c args.length)
-    (hq : ∀ n a, FrameLocal (query cfg f n a)) (hu : ∀ a b, FrameLocal (unify f a b)) :
+    (harity : p.arity = args.length) (hsrc : ∀ c ∈ p.clauses, ClauseSrcOK c args.length) :
     runDefPyTop cfg (f + 1) (.prolog p mode) args = runDef cfg (f + 1) (.prolog p .compiled) args :=
-  pyTop_def_correct cfg f p mode args harity hsrc hq hu
+  pyTop_def_correct_engine cfg f p mode args harity hsrc
+
+/-- The model engine does not look at its consumer's frame (the hypothesis `FrameLocal` of the
+    theorems about printed Python, discharged for `query` at every fuel and for `unify`). -/
+theorem engine_is_frame_local (cfg : Cfg) (f : Nat) (name : String) (args : List Term) (a b : Term) :
+    FrameLocal (query cfg f name args) ∧ FrameLocal (unify f a b) :=
+  ⟨query_frameLocal cfg f name args, unify_frameLocal f a b⟩
 
 /-- What `compile_function_body` hands to the code generator: distinct local names, every variable
     of the clause declared before use, argument positions inside the parameter list. -/
